@@ -290,7 +290,7 @@ def rejected_texts(result) -> list[tuple[str, str]]:
 # Racing projects: several plan steps that declare concurrently (C02)
 # ---------------------------------------------------------------------------------------------
 
-RACE_SOURCES = ["src/a.txt", "src/b.txt", "src/c.txt", "t/x.dat", "t/sub/y.dat"]
+RACE_SOURCES = ["src/a.txt", "src/b.txt", "src/c.txt", "t/x.dat", "t/sub/y.dat", "v/w.dat"]
 
 
 def gen_race_project(rng, *, conflict: bool = False) -> tuple[Project, dict]:
@@ -320,9 +320,16 @@ def gen_race_project(rng, *, conflict: bool = False) -> tuple[Project, dict]:
     tree_owner = rng.choice(plans)
     use_tree = rng.random() < 0.7
     if use_tree:
-        decls[tree_owner].append(A.static("t/"))
+        # two trees in ONE request (the handler registers them in a loop and collects the files
+        # whose hashes must be confirmed), sometimes with a literal file in the same request
+        if rng.random() < 0.5:
+            decls[tree_owner].append(A.static("t/", "v/"))
+        else:
+            decls[tree_owner].append(A.static("t/"))
+            decls[rng.choice(plans)].append(A.static("v/"))
     else:
         decls[tree_owner].append(A.static("t/x.dat", "t/sub/y.dat"))
+        decls[tree_owner].append(A.static("v/w.dat"))
     # steps
     outputs: list[str] = []
     nstep = rng.randint(2, 5)
@@ -651,7 +658,13 @@ class PlanTree:
             actions.append(A.static(*own, *[self.file(c) for c in children]))
         for step in self.steps:
             if step["plan"] == plan:
-                actions.append(A.step(step["name"], inp=step["inp"], out=step["out"], optional=step["optional"]))
+                actions.append(A.step(step["name"], inp=step["inp"], out=step["out"], optional=step["optional"],
+                                      env_overrides=step.get("ovr")))
+        if plan == "root" and getattr(self, "glob_files", None):
+            # a named glob with a constrained wildcard: g/inp10.txt is on disk but does not match
+            actions.append(A.foreach("g/inp${*idx}.txt",
+                                     [A.step("cnt ${idx}", inp=["${path}"], out=["out/cnt_${idx}.txt"])],
+                                     static=True, idx="[0-9]"))
         for child in children:
             actions.append(A.step(self.label(child), inp=[self.file(child)], plan=True))
         return actions
@@ -663,6 +676,8 @@ class PlanTree:
             scripts[self.label(plan)] = script
             files[self.file(plan)] = plan_file(script, note=f"note {info['note']}")
         for path, (_, content) in self.sources.items():
+            files[path] = content
+        for path, content in (getattr(self, "glob_files", None) or {}).items():
             files[path] = content
         return Project(scripts=scripts, files=files, env=dict(self.env))
 
@@ -688,7 +703,14 @@ def gen_plan_tree(rng) -> PlanTree:
         out = f"out/t{i}.txt"
         steps.append({"name": f"tool t{i}", "plan": plan, "inp": inp, "out": [out], "optional": rng.random() < 0.3})
         outputs.append(out)
+    for step in steps:
+        if rng.random() < 0.3:
+            step["ovr"] = {"OVR": rng.choice(["x", "y"])}
     tree = PlanTree(plans, steps, sources)
+    if rng.random() < 0.4:
+        tree.glob_files = {"g/inp1.txt": "one\n", "g/inp10.txt": "ten (matches the pattern only without idx=[0-9])\n"}
+        if rng.random() < 0.5:
+            tree.glob_files["g/inp2.txt"] = "two\n"
     if rng.random() < 0.4:
         # An optional producer high up that is needed only by a consumer in a plan nested at least two
         # levels below the root: dropping that plan must make the producer unneeded again.
@@ -834,3 +856,50 @@ def unpack_case(data: dict):
 
     return proj(data["initial"]), from_json(data["events"]), proj(data["final"]), data["seed"], \
         from_json(data["fresh_kwargs"])
+
+
+def gen_amend_timing_project(rng) -> tuple[Project, dict]:
+    """A producer, a consumer that looks at the producer's output first and declares it afterwards
+    (`amend(inp=...)` post hoc, as wrappers do that learn their inputs from a tool's log), and 2-4
+    unrelated steps of different lengths.  Whether the consumer sees the final file is decided by
+    the freshness guard of `amend_step` (`ran_concurrently`): if the producer finished after the
+    consumer started, the consumer is deferred and run again.  The final outputs must not depend on
+    the number of jobs or on when unrelated steps start and stop."""
+    nfill = rng.randint(2, 4)
+    plan = [A.static("src/a.txt", "src/b.txt")]
+    scripts = {}
+    prod = f"make f -n{rng.randint(0, 3)}"
+    scripts[prod] = [A.read_declared(), *[A.nop() for _ in range(int(prod[-1]))], A.write_declared()]
+    cons = f"scan f -n{rng.randint(1, 4)}"
+    scripts[cons] = [A.read_declared(), A.read("out/f.txt", required=False),
+                     *[A.nop() for _ in range(int(cons[-1]))], A.amend(inp=["out/f.txt"]), A.write_declared()]
+    steps = [A.step(prod, inp=["src/a.txt"], out=["out/f.txt"]), A.step(cons, inp=["src/b.txt"], out=["out/scan.txt"])]
+    for i in range(nfill):
+        label = f"fill {i} -n{rng.randint(0, 5)}"
+        scripts[label] = [A.read_declared(), *[A.nop() for _ in range(int(label[-1]))], A.write_declared()]
+        steps.append(A.step(label, inp=[rng.choice(["src/a.txt", "src/b.txt"])], out=[f"out/fill{i}.txt"]))
+    rng.shuffle(steps)
+    plan.extend(steps)
+    scripts["./plan.py"] = plan
+    project = Project(scripts=scripts, files={"src/a.txt": "a\n", "src/b.txt": "b\n", "plan.py": plan_file(plan)})
+    return project, {"nfill": nfill, "producer": prod, "consumer": cons}
+
+
+def gen_tree_source_history(rng):
+    """A plan tree and 2-4 phases that each touch exactly one source file: a plan file gets a new
+    comment (only that plan is re-executed) or a source changes.  Returns `(initial project,
+    events, source_only)` in the form `props.c04.evaluate` takes."""
+    import projgen
+
+    tree = gen_plan_tree(rng)
+    initial = tree.render()
+    events = [("build", {"njob": rng.randint(1, 3)})]
+    source_only = []
+    for _ in range(rng.randint(2, 4)):
+        old = tree.render()
+        tree, _ = mutate_plan_tree(rng, tree, rng.choice(["touch_plan", "touch_plan", "edit_source"]))
+        edits = projgen._edits_between(old, tree.render())
+        events.append(("edits", edits))
+        source_only.append(sorted(e[1] for e in edits))
+        events.append(("build", {"njob": rng.randint(1, 3)}))
+    return initial, events, source_only
